@@ -17,6 +17,7 @@ from lib.engine import R, V, enum_part, hyp_part
 ID = 'C14'
 RULE = ('cases are TIMEX strings drawn from a grammar mirroring TimexRegex (structured strategies) plus datetimes '
         'for the from_* constructors; exhaustive sub-part: every week-of-month/weekday/part-of-day/season combination; '
+        'histories: 2-5 spellings of one duration amount (2.5, 2.50, 02.5, number assigned to the field) formatted one after the other; '
         'non-trivial = string with >= 2 syntactic components (e.g. date+time, month+week, year+season) or a fractional '
         'duration amount; distinct = distinct TIMEX string / constructor argument')
 ASSUMPTIONS = ['field expectations come from the generator structure (typed into the harness from the TIMEX grammar)']
@@ -307,6 +308,52 @@ def exhaustive_small():
     return out
 
 
+def run_spellings(case):
+    """history: several spellings of ONE amount (2.5, 2.50, 02.5, the number assigned to the field) are formatted one after the other in
+    one process; every spelling must denote the amount after the round trip and the canonical spelling must come back unchanged, whatever
+    was formatted before it"""
+    from datatypes_timex_expression import Timex
+    unit, kind = case['unit'], case['kind']
+    field = (DATE_UNITS if kind == 'date' else TIME_UNITS)[unit]
+    vs = []
+    outs = []
+    for sp in case['spellings']:
+        if sp[0] == 'field':        # the way TimexCreator / callers build durations: assign the number
+            t = Timex()
+            setattr(t, field, int(sp[1]) if '.' not in sp[1] else Decimal(sp[1]))
+            src = 'Timex().%s = %s' % (field, sp[1])
+        else:
+            src = ('P%s%s' if kind == 'date' else 'PT%s%s') % (sp[1], unit)
+            t = Timex(src)
+        out = t.timex_value()
+        outs.append([src, out])
+        back = getattr(Timex(out), field)
+        if back is None or Decimal(str(back)) != Decimal(case['canonical']):
+            vs.append(V('ROUNDTRIP_FIELDS', {'history': outs, 'amount': case['canonical']}, bucket='HISTORY_ROUNDTRIP'))
+            break
+        if sp[1] == case['canonical'] and out != ('P%s%s' if kind == 'date' else 'PT%s%s') % (case['canonical'], unit):
+            vs.append(V('CANONICAL_CHANGED', {'history': outs, 'amount': case['canonical']}, bucket='HISTORY_CANON'))
+            break
+    return R(vs, nontrivial=len({x[1] for x in case['spellings']}) >= 2, labels=['history:equal-amounts'], obs={'outs': outs},
+             key=['spellings', kind, unit, case['spellings']])
+
+
+def spelling_cases():
+    def mk(n, f, kinds, order, ku):
+        canon = str(n) if not f else '%d.%s' % (n, f)
+        alts = {'canon': ('text', canon), 'zeros': ('text', canon + ('0' if f else '.0')), 'zeros2': ('text', canon + ('00' if f else '.00')),
+                'lead': ('text', '0' + canon), 'field': ('field', canon), 'field0': ('field', canon + ('0' if f else '.0'))}
+        sp = [alts[k] for k in kinds]
+        sp = [sp[i % len(sp)] for i in order][:5] if order else sp
+        kind, unit = ku
+        return {'canonical': canon, 'spellings': [list(x) for x in sp], 'unit': unit, 'kind': kind}
+    frac = st.one_of(st.just(''), st.text('0123456789', min_size=0, max_size=2).map(lambda x: (x + '5')), st.sampled_from(['5', '25', '75', '1']))
+    return st.builds(mk, st.one_of(st.integers(1, 60), st.integers(1, 5000)), frac,
+                     st.lists(st.sampled_from(['canon', 'zeros', 'zeros2', 'lead', 'field', 'field0']), min_size=2, max_size=4, unique=True),
+                     st.lists(st.integers(0, 3), min_size=0, max_size=5),
+                     st.sampled_from([('date', 'Y'), ('date', 'M'), ('date', 'W'), ('date', 'D'), ('time', 'H'), ('time', 'M'), ('time', 'S')]))
+
+
 def parts(tier, seed):
     n = 20000 if tier == 'quick' else 1000000
     nc = 4000 if tier == 'quick' else 200000
@@ -314,6 +361,7 @@ def parts(tier, seed):
         enum_part('small-exhaustive', exhaustive_small, run_timex, exhaustive=True),
         hyp_part('grammar', timex_cases, run_timex, n, min_shard=1000),
         hyp_part('constructors', ctor_cases, run_ctor, nc, min_shard=1000),
+        hyp_part('equal-amount-histories', spelling_cases, run_spellings, nc, min_shard=1000),
     ]
     if tier == 'thorough':
         from checks import fuzz_tier
